@@ -198,6 +198,12 @@ def q_setting(c, kind, name, part=None):
         if part is not None:
             c.assume(b_and(i_cmp('>=', a, Q_RANGES[part][0]), i_cmp('<=', a, Q_RANGES[part][1])))
         return PObj('AnsiSetting', {'_str': sym.mk_rope([('istr', a), ('lit', ';'), ('istr', b)])})
+    if kind == 'cmulti':
+        # a complete extended-colour group followed by one more code in the same setting (valid, not one group)
+        intro = [38, 48, 58][c.choice(3)]
+        n = c.named_int('cn_' + name, 0, 255)
+        b = [1, 0, 22, 3][c.choice(4)]
+        return PObj('AnsiSetting', {'_str': sym.mk_rope([('lit', '%d;5;' % intro), ('istr', n), ('lit', ';%d' % b)])})
     if kind == 'invalid':
         # contains a final byte: would end the escape sequence
         return PObj('AnsiSetting', {'_str': ['zz', '1m', '31;A', '@'][c.choice(4)]})
@@ -229,7 +235,7 @@ def q_items(tier, kinds1, kinds2, quick_points=3):
 
 
 Q_PAIRS = [['code', 'code'], ['code', 'c256'], ['rgb', 'code'], ['c256', 'rgb']]
-Q_PAIRS_S = Q_PAIRS + [['multi', 'code'], ['code', 'invalid'], ['invalid', 'rgb'], ['multi', 'multi']]
+Q_PAIRS_S = Q_PAIRS + [['multi', 'code'], ['code', 'invalid'], ['invalid', 'rgb'], ['multi', 'multi'], ['code', 'cmulti'], ['cmulti', 'c256']]
 
 
 def q1_items(tier):
@@ -238,8 +244,14 @@ def q1_items(tier):
 
 def q2_items(tier):
     if tier == 'quick':
-        return q_items(tier, ('code', 'c256', 'rgb', 'multi', 'invalid'), [['code', 'c256'], ['multi', 'code'], ['code', 'invalid']], 2)
-    return q_items(tier, ('code', 'c256', 'rgb', 'multi', 'invalid'), Q_PAIRS_S)
+        its = q_items(tier, ('code', 'c256', 'rgb', 'multi', 'cmulti', 'invalid'),
+                      [['code', 'c256'], ['multi', 'code'], ['code', 'invalid']], 2)
+        # an outer setting over the whole text with a colour-group-plus-code setting on a prefix (and the other nesting)
+        for sh in ([([0], []), ([1], []), ([], [1]), ([], [0])], [([0, 1], []), ([], [1]), ([], [0])], [([0], []), ([1], [0]), ([], [1])]):
+            for part in range(len(Q_RANGES)):
+                its.append([sh, ['code', 'cmulti'], [part, None]])
+        return its
+    return q_items(tier, ('code', 'c256', 'rgb', 'multi', 'cmulti', 'invalid'), Q_PAIRS_S)
 
 
 def q3_items(tier):
@@ -287,7 +299,7 @@ def q2_task(envr, item):
 
 GROUPS.append(Group('Q2', 'simplify(): text and effective style of every character unchanged; afterwards all settings valid and '
                     'parsable', ['C03'], 'B', ['AnsiString.simplify', 'AnsiString.to_str', 'AnsiString.set_ansi_str'], q2_items,
-                    q2_task, bounds='as Q1, plus settings holding two parameter groups and invalid settings (zz, 1m, 31;A, @)',
+                    q2_task, bounds='as Q1, plus settings holding two parameter groups (two codes; a 256-colour group followed by a code) and invalid settings (zz, 1m, 31;A, @)',
                     assumes=['B1', 'K1', 'SL']))
 
 
